@@ -127,12 +127,10 @@ Definition kd_amount (infl secs sup : Z) : Z :=
   let inflation_int := dec_trunc_int (dec_mul infl (dec_of_int PREC)) in   (* inflationRate.Mul(NewDecFromInt(scalar)).TruncateInt() *)
   let acc := dec_mul (dec_of_int (rel_pow inflation_int secs PREC)) 1 in   (* NewDecFromBigInt(RelativePow(..)).Mul(SmallestDec()) *)
   dec_trunc_int (dec_sub (dec_mul (dec_of_int sup) acc) (dec_of_int sup)).
-(* [infra]: infrastructure.go calls coins.IsZero() on the sdk.Coin{} that
-   mintInflationaryCoins returns when the amount is zero: nil pointer panic *)
-Definition kd_mint (infra : bool) (infl secs sup : Z) : option Z :=
+Definition kd_mint (infl secs sup : Z) : option Z :=
   if (infl <? 0) || (secs <? 0) then None
   else let a := kd_amount infl secs sup in
-       if a <? 0 then None else if infra && (a =? 0) then None else Some a.
+       if a <? 0 then None else Some a.
 
 (* a stretch of time (in Unix seconds, the granularity the code mints at)
    for which one period was minted in one call: (w_from, w_to] *)
@@ -148,32 +146,34 @@ Record window := mkWin {
 Definition kd_case2 (now prev : Z) (p : period) : bool := (prev <? p_end p) && (p_end p <=? now).
 Definition kd_case3 (now prev : Z) (p : period) : bool := (p_start p <=? prev) && (now <? p_end p).
 
-(* mint.go mintIncentivePeriods / infrastructure.go mintInfrastructurePeriods:
-   returns the new supply and the windows minted; None = panic *)
-Fixpoint mint_periods (infra : bool) (now : Z) (ps : list period) (i : nat) (prev sup : Z) : option (Z * list window) :=
+(* mint.go mintIncentivePeriods / infrastructure.go mintInfrastructurePeriods (the same
+   switch in both): returns the new supply and the windows minted; None = panic *)
+Fixpoint mint_periods (now : Z) (ps : list period) (i : nat) (prev sup : Z) : option (Z * list window) :=
   match ps with
   | [] => Some (sup, [])
   | p :: r =>
-      if p_end p <? prev then mint_periods infra now r (S i) prev sup                  (* case 1: fully expired *)
+      if p_end p <? prev then mint_periods now r (S i) prev sup                  (* case 1: fully expired *)
       else if kd_case2 now prev p then                                            (* case 2: ended since the previous block *)
-        match kd_mint infra (p_infl p) (unix (p_end p) - unix prev) sup with
+        (* mintFrom := previousBlockTime; if period.Start.After(mintFrom) { mintFrom = period.Start } *)
+        let from := Z.max prev (p_start p) in
+        match kd_mint (p_infl p) (unix (p_end p) - unix from) sup with
         | None => None
         | Some a =>
-            match mint_periods infra now r (S i) (p_end p) (sup + a) with
+            match mint_periods now r (S i) (p_end p) (sup + a) with
             | None => None
-            | Some (sup', ws) => Some (sup', mkWin i p prev (unix prev) (unix (p_end p)) a :: ws)
+            | Some (sup', ws) => Some (sup', mkWin i p from (unix from) (unix (p_end p)) a :: ws)
             end
         end
       else if kd_case3 now prev p then                                            (* case 3: ongoing *)
-        match kd_mint infra (p_infl p) (unix now - unix prev) sup with
+        match kd_mint (p_infl p) (unix now - unix prev) sup with
         | None => None
         | Some a =>
-            match mint_periods infra now r (S i) prev (sup + a) with
+            match mint_periods now r (S i) prev (sup + a) with
             | None => None
             | Some (sup', ws) => Some (sup', mkWin i p prev (unix prev) (unix now) a :: ws)
             end
         end
-      else mint_periods infra now r (S i) prev sup                                      (* case 4 / no case applies *)
+      else mint_periods now r (S i) prev sup                                      (* case 4 / no case applies *)
   end.
 
 (* mint.go MintPeriodInflation (partner and core reward lists empty) *)
@@ -181,10 +181,10 @@ Definition kavadist_bb (t : Z) (s : state) : outcome state (list window * list w
   if negb (kd_active s) then Ok s ([], [])
   else if kd_prev s =? 0 then Ok (set_kd s true t) ([], [])
   else
-    match mint_periods false t (kd_periods s) 0 (kd_prev s) (supply s) with
+    match mint_periods t (kd_periods s) 0 (kd_prev s) (supply s) with
     | None => Panic
     | Some (sup1, ws1) =>
-        match mint_periods true t (kd_infra s) 0 (kd_prev s) sup1 with
+        match mint_periods t (kd_infra s) 0 (kd_prev s) sup1 with
         | None => Panic
         | Some (sup2, ws2) =>
             Ok (set_kd (set_bank s (pool s) (sink s) (kdbal s + (sup2 - supply s)) sup2) true t) (ws1, ws2)
@@ -231,8 +231,8 @@ Definition block (t mint_o cons_o : Z) (s : state) : outcome state out :=
   | _ => Panic
   end.
 
-Definition kd_direct (infra : bool) (now prev : Z) (ps : list period) (s : state) : outcome state out :=
-  match mint_periods infra now ps 0 prev (supply s) with
+Definition kd_direct (now prev : Z) (ps : list period) (s : state) : outcome state out :=
+  match mint_periods now ps 0 prev (supply s) with
   | None => Panic
   | Some (sup', ws) =>
       Ok (set_bank s (pool s) (sink s) (kdbal s + (sup' - supply s)) sup') (OKd (sup' - supply s) ws)
@@ -248,8 +248,8 @@ Definition step (s : state) (o : op) : outcome state out :=
   | SetKdActive b => Ok (set_kd s b (kd_prev s)) ONone
   | Calc now last err rate pd =>
       let '(paid, e) := calc_staking_rewards now last err rate pd in Ok s (OCalc paid e)
-  | KdMint now prev ps => kd_direct false now prev ps s
-  | KdInfra now prev ps => kd_direct true now prev ps s
+  | KdMint now prev ps => kd_direct now prev ps s
+  | KdInfra now prev ps => kd_direct now prev ps s
   end.
 
 (* failed operations are discarded (cached context not written) *)
@@ -303,18 +303,6 @@ Fixpoint periods_valid (prev_end : Z) (ps : list period) : Prop :=
   match ps with
   | [] => True
   | p :: r => p_start p <= p_end p /\ prev_end <= p_start p /\ NS <= p_start p /\ periods_valid (p_end p) r
-  end.
-
-(* the guard under which the code's case 2 does not reach before a period's
-   start: every period that ends inside the block interval had started by the
-   instant the interval (as advanced by earlier periods) begins *)
-Fixpoint clip_guard (now : Z) (ps : list period) (prev : Z) : Prop :=
-  match ps with
-  | [] => True
-  | p :: r =>
-      if p_end p <? prev then clip_guard now r prev
-      else if kd_case2 now prev p then p_start p <= prev /\ clip_guard now r (p_end p)
-      else clip_guard now r prev
   end.
 
 (** * Correspondence-check support *)
